@@ -132,6 +132,8 @@ func genC14(r *Rng, tier string) []Case {
 	return out
 }
 
+var c14Decoy = errdef.Define("c14-decoy", errdef.NoTrace())
+
 func runC14(d c14Desc) Case {
 	pool := valuePool()
 	defs := make([]errdef.Definition, len(d.Pool))
@@ -161,8 +163,17 @@ func runC14(d c14Desc) Case {
 		reg[i] = defs[x]
 		coqReg = append(coqReg, coqDefs[x])
 	}
+	// the registration list is caller-owned: built with spare capacity, and overwritten after
+	// registration - the resolver answers from what it was given at New
+	reg = append(make([]errdef.Definition, 0, len(reg)+2), reg...)
 	res := resolver.New(reg...)
 	dres := res.WithDefault(defs[d.Default])
+	for i := range reg {
+		reg[i] = c14Decoy
+	}
+	for i := range reg[:cap(reg)][len(reg):] {
+		reg[:cap(reg)][len(reg)+i] = c14Decoy
+	}
 
 	lk := d.Lookup
 	var want any
